@@ -764,7 +764,9 @@ def layout_text(tokens, gaps=None):
 
 WS_COMMON = [" ", "  ", "   ", "\t", "\n", "\r\n", " \n  ", "\n\n"]
 WS_RARE = [" ", " ", "　", " ", "\u000b", "\u000c", "\u0085", "\r"]
-COMMENT_BODIES = ["", " c ", "x", " and ", " ) ", " \" ", " // ", " * ", " / ", "**", " if then else ", " é\U0001f640 ", " 1 + 2 ", "-"]
+COMMENT_BODIES = ["", " c ", "x", " and ", " ) ", " \" ", " // ", " * ", " / ", "**", " if then else ", " é\U0001f640 ", " 1 + 2 ", "-",
+                  # bodies that begin or end with a character of the comment delimiters themselves
+                  "/", "/ c ", "/x", "*", "* c", "/*", " c /", " c *", "//", "/ * /"]
 
 
 def gen_comment(src):
@@ -840,7 +842,7 @@ def strip_gaps(gaps, which, keep_comments=0):
         res, i, kept = [], 0, 0
         while i < len(text):
             if text.startswith("/*", i):
-                e = text.index("*/", i) + 2
+                e = text.index("*/", i + 2) + 2     # searched after the opener: "/*/" does not close itself
                 if kept < keep_comments:
                     res.append(text[i:e])
                     kept += 1
